@@ -96,6 +96,7 @@ fn run_dec(f: &[&str]) -> String {
         }
     }
     let obs = if MODELLED.contains(name) { chunks_str(&out) } else { "impl-only".into() };
+    let flag = also_c14(flag);
     format!("{obs}{flag}")
 }
 
@@ -397,6 +398,7 @@ fn run_loc(f: &[&str]) -> String {
             flag = format!(" ||ORACLE:C13:public-range-end {name}");
         }
     }
+    let flag = also_c14(flag);
     format!("impl-only{flag}")
 }
 
@@ -422,5 +424,16 @@ pub fn run(line: &str) -> String {
         Some(&"loc") => run_loc(&f[1..]),
         Some(&"compat") => run_compat(&f[1..]),
         _ => "bad-case".into(),
+    }
+}
+
+/// The source ranges of text chunks are property C14's subject as much as C13's: a range oracle is
+/// reported under both.
+fn also_c14(flag: String) -> String {
+    if flag.contains(":range-") || flag.contains("-range-") {
+        let dup = flag.replacen("||ORACLE:C13:", "||ORACLE:C14:", 1);
+        format!("{flag}{dup}")
+    } else {
+        flag
     }
 }
